@@ -1,11 +1,13 @@
 """C03 — register banks update only at the clock edge, honouring stall and bubble."""
 from props import C19
+from props import C16
 import re
 from props.common_prog import judge_prog
 
-THEOREM_MODULES = ["Hcl.Theorems.C03", "Hcl.Tie.Banks", "Hcl.Tie.PinsInit"]
+THEOREM_MODULES = ["Hcl.Theorems.C03", "Hcl.Tie.Banks", "Hcl.Tie.PinsInit", "Hcl.Tie.PinsDump"]
 THEOREMS = {"Hcl.Tie.Banks": ["Tie.Banks.processBanksText"], "Hcl.Theorems.C03": ["C03_accepted", "C03_bank_edge", "C03_edge", "foldDefaults", "foldSignals"],
-            "Hcl.Tie.PinsInit": ["Tie.PinsInit.pinInitialState"]}
+            "Hcl.Tie.PinsInit": ["Tie.PinsInit.pinInitialState"],
+            "Hcl.Tie.PinsDump": ["Tie.PinsDump.pinDumpBank", "Tie.PinsDump.pinDumpCustom"]}
 
 RULE = ("S-PROG banks profile: 1-4 register banks (pairwise distinct prefix letters, 1-4 registers of widths 0..128, "
         "constant and expression defaults), stall and bubble of each bank driven independently from a counter register so "
@@ -29,4 +31,7 @@ def streams(tier, seed):
     return [{"name": "prog-banks", "stream": "prog", "count": 500 if q else 20000, "extra": ("banks",), "judge": judge},
             {"name": "prog-dag", "stream": "prog", "count": 150 if q else 5000, "extra": ("dag",), "judge": judge},
             # what the user sees goes through the command line and the two files: the real binary on accepted, rejected, big, not-UTF-8, bare-CR files, good and malformed images, all options and TIMEOUT forms (as in C19)
-            {"name": "cli", "stream": "cli", "count": 200 if q else 5000, "pygen": C19.pygen, "judge": C19.judge}]
+            {"name": "cli", "stream": "cli", "count": 200 if q else 5000, "pygen": C19.pygen, "judge": C19.judge},
+            # the registers are seen through the state dump: a bank's line shows its OUTPUT signals (what the registers hold), also
+            # right after a cycle in which the bank was stalled or bubbled, when inputs and outputs differ (as in C16)
+            {"name": "dump", "stream": "dump", "count": 600 if q else 20000, "judge": C16.judge}]
